@@ -66,40 +66,6 @@ func VH_C13_clock_budget(k int) {
 	vxReach("clock_budget.end")
 }
 
-// the monolithic statement (thorough tier: long solver time)
-func VN_C13_clock_budget_monolithic_T() int { return 65 + 25 }
-func VH_C13_clock_budget_monolithic_T(k int) {
-	if k == 0 {
-		k = 1
-	}
-	mtg, phase := k, 0
-	if k > 64 {
-		mtg, phase = 0, k-65
-	}
-	stm := Color(vxU8("stm"))
-	vxAssume(stm < 2)
-	p := position.VxPosPhaseStm(phase, stm)
-	sl := &Limits{TimeControl: true, MovesToGo: mtg}
-	sl.WhiteTime = time.Duration(vxI64("wtime"))
-	sl.BlackTime = time.Duration(vxI64("btime"))
-	sl.WhiteInc = time.Duration(vxI64("winc"))
-	sl.BlackInc = time.Duration(vxI64("binc"))
-	const lim = int64(1) << 44
-	vxAssume(sl.WhiteTime >= 0 && int64(sl.WhiteTime) < lim && sl.BlackTime >= 0 && int64(sl.BlackTime) < lim)
-	vxAssume(sl.WhiteInc >= 0 && int64(sl.WhiteInc) < lim && sl.BlackInc >= 0 && int64(sl.BlackInc) < lim)
-	s := &Search{}
-	limit := int64(s.setupTimeControl(p, sl))
-	remaining, inc := int64(sl.WhiteTime), int64(sl.WhiteInc)
-	if stm == Black {
-		remaining, inc = int64(sl.BlackTime), int64(sl.BlackInc)
-	}
-	moves := int64(mtg)
-	if mtg == 0 {
-		moves = 15
-	}
-	vxAssert(moves*limit <= remaining+moves*inc, "moves*budget<=remaining+moves*increment")
-}
-
 // fixed move time: the budget never exceeds the move time
 func VH_C13_movetime_budget() {
 	p := position.VxPosPhaseStm(0, White)
